@@ -172,7 +172,7 @@ prop(
     "C06",
     level="proof",
     design_ref="DESIGN.md section 3, C06",
-    groups=[(["./plugin/input/file"], r"^\(\*worker\)\.work$")],
+    groups=[(["./plugin/input/file", "./pipeline"], r"^(\(\*worker\)\.work|\(\*jobProvider\)\.(initJobOffset|maintenanceJob|truncateJob))$")],
     claim=(
         "The real (*worker).work (170 lines, five loops) verified in place, for all file contents, all read-buffer sizes >= 1, all max_event_size / cut_off settings, every split of the content into reads of any size "
         "(Read may return any 0 <= n <= len(buf)), every resume offset and any number of rounds (job invariant assumed at hand-out, proved at hand-back): "
@@ -263,7 +263,7 @@ prop(
     "C05",
     level="other",
     design_ref="DESIGN.md section 3, C05",
-    groups=[(_PIPE, r"^(\(\*Pipeline\)\.(In|finalize|streamEvent)|\(\*lowMemoryEventPool\)\.(get|back|inUse)|\(\*Event\)\.reset|\(\*processor\)\.(doActions|processSequence))$")],
+    groups=[(_PIPE, r"^(\(\*Pipeline\)\.(In|finalize|streamEvent)|\(\*lowMemoryEventPool\)\.(get|back|inUse)|newEventPool|\(\*Event\)\.reset|\(\*processor\)\.(doActions|processSequence))$")],
     canaries=[("./pipeline", "replay/C05/zz_sample_after_back_test.go", "TestVerifSampleReadsLiveEvent")],
     claim=(
         "Linear ownership accounting proved per function: Pipeline.In takes at most one event from the pool and on every exit path has either streamed it or returned it (held == 0 at every return); "
@@ -447,7 +447,7 @@ prop(
     "C03",
     level="other",
     design_ref="DESIGN.md section 3, C03",
-    groups=[(["./plugin/input/file", "./pipeline"], r"^(\(\*Plugin\)\.PassEvent|\(\*jobProvider\)\.(commit|truncateJob|initJobOffset|addJob)|\(\*worker\)\.(processEOF|work)|\(\*Pipeline\)\.streamEvent)$")],
+    groups=[(["./plugin/input/file", "./pipeline"], r"^(\(\*Plugin\)\.PassEvent|\(\*jobProvider\)\.(commit|truncateJob|initJobOffset|addJob|maintenanceJob)|\(\*worker\)\.(processEOF|work)|\(\*Pipeline\)\.streamEvent)$")],
     canaries=[("./plugin/input/file", "replay/C03/zz_truncation_tail_test.go", "TestVerifTruncationDropsStaleTail"),
               ("./plugin/input/file", "replay/C03/zz_rejected_last_line_truncation_test.go", "TestVerifTruncationAfterRejectedLastLine")],
     claim=(
